@@ -38,6 +38,10 @@ def cases(tier, seed):
         for k in range(K):
             d = dict(c); d["chunk"] = [k, K]
             out.append(d)
+    # scale: 80 fields per box (lists of fields far apart inside a FAB)
+    for k in range(2):
+        out.append({"gen": dict(seed=seed * 41 + 2020, ndims=3, nlevels=2, nfields=80, bf=2, base_blocks=(2, 2), payload="random"),
+                    "fmt": {}, "sel_seed": seed * 101 + 2020, "pairs": 4, "chunk": [k, 8]})
     if tier == "thorough":       # real AMReX output: a population the generator does not produce
         for a in ("plt1_Y", "plt2_F"):
             for k in range(8):
@@ -231,6 +235,22 @@ def run_case(case, work, rec):
                               f"validated level (box 0 read {'raised' if got is None else 'differs'}): {descr}", key=key + ("neg",),
                               witness={"mutations": muts, "limit_level": limit})
                 return
+        # (5) lists of fields spanning the whole FAB (first, middle, last; with many fields: far apart)
+        if nf >= 3:
+            comps = [0, nf // 2, nf - 1]
+            for (lv, bi), e in list(exps.items())[:3]:
+                if e is None:
+                    continue
+                try:
+                    got = pck[comps][lv][bi]
+                    ok = isinstance(got, np.ndarray) and refparse.biteq(got, e[..., comps])
+                except Exception:
+                    got, ok = None, False
+                rec.count("field_list_reads")
+                if not ok:
+                    rec.violation(f"validation accepted but the field list {comps} of a box read {'raised' if got is None else 'differs from the FAB that names its index range'}: {descr}",
+                                  key=key + ("flist",), witness={"mutations": muts, "level": lv, "box": bi, "fields": comps})
+                    return
         rec.count("accepted_and_read")
         for kd, mu in zip(kinds, muts):
             if kd == "tol":
@@ -251,3 +271,4 @@ def run_case(case, work, rec):
                                                                  "extend", "delete_file", "cellh_text", "swap_entries"}):
             continue
         one([a, b], [ka, kb])
+
